@@ -14,13 +14,16 @@ func checkC20(c *Ctx) {
 	p := c.P
 	c.Decided = "the quorum arithmetic in closed form for every n >= 1 (n < 2^52): from the SSA expression trees of NumFaulty and QuorumSize, for each residue class n = 6k + r, 3f < n <= 3f+3, 2q - n >= f + 1, q <= n - f, and minimality 2(q-1) - n < f + 1; " +
 		"and that every component that forms or checks certificates compares participant counts with RuntimeConfig.QuorumSize(), which is hotstuff.QuorumSize(len(replicas)); no other threshold constant or formula is compared with a participant count there."
-	c.Decided += " The timeout collector's quorum is counted over the timeouts of one view (C08.3)."
+	c.Decided += " The timeout collector's quorum is counted over the timeouts of one view (C08.3); every accepting exit of the certificate verifiers is dominated by the threshold comparison, also for the block certificate of a proposal with an aggregate QC (C02.1, C02.7)."
 	c.NotDec = "cluster sizes of 2^52 and above (float64 rounding in QuorumSize)."
 	c.Assume = append(c.Assume, "n < 2^52 so that int->float64 conversion, division by 2.0 and math.Ceil are exact")
 	c.Expect("C20.1", 24)
 	c.Expect("C20.2", 8)
 	// what the forming side counts: the timeout collector's quorum is over the timeouts of one view (C08.3)
 	c.importFrom(checkC08, "C20.3", "C08.3")
+	// what the checking side compares: every certificate a verifier accepts went through the threshold comparison
+	// (C02.1), including the certificate of a proposal that also carries an aggregate QC (C02.7)
+	c.importFrom(checkC02, "C20.4", "C02.1", "C02.7")
 
 	nf := p.Func("", "NumFaulty")
 	qs := p.Func("", "QuorumSize")
@@ -162,13 +165,13 @@ func checkC20(c *Ctx) {
 	if gl := p.Method("protocol/leaderrotation", "Carousel", "GetLeader"); gl != nil {
 		fl := NewFlow(p, gl)
 		ok := false
-		eachInstr(gl, func(in ssa.Instruction) {
-			if call, isCall := in.(*ssa.Call); isCall && call.Call.StaticCallee() == nf {
-				if strings.HasPrefix(fl.K.Key(call.Call.Args[0]), "(*hs/core.RuntimeConfig).ReplicaCount(") {
-					ok = true
-				}
+		// (in GetLeader or in a private helper of its package: the bound must be taken from the membership at the time
+		// of the call, not from a copy made at construction, when the configuration may still be empty)
+		for _, ds := range deepSites(fl, func(cc *ssa.CallCommon) bool { return cc.StaticCallee() == nf }, 0) {
+			if len(ds.Args) > 0 && strings.HasPrefix(ds.Args[0], "(*hs/core.RuntimeConfig).ReplicaCount(") {
+				ok = true
 			}
-		})
+		}
 		c.Check(ok, "C20.2", "Carousel.GetLeader: f = NumFaulty(ReplicaCount())", p.FuncPos(gl), "the carousel's fault bound is hotstuff.NumFaulty of the configured membership", "no NumFaulty(ReplicaCount()) found")
 	}
 }
